@@ -291,6 +291,23 @@ class C14(Check):
             ctx.violation("minus-bait-ne-reverse", case, f"{sm.rows!r} expected {want.rows!r}")
         if fm.rows_of(sp) != fm.rows_of(Scaffold("x", plus.rows)):
             ctx.violation("plus-bait-changed-rows", case, "")
+        # history: the results are edited after to_scaffold() was asked once (cut to the bait, or a row discarded), then
+        # asked again: the minus-bait scaffold must again be the reverse of the plus-bait one
+        for op in (("trim_fragment", "first", False, False), ("trim_fragment", "last", False, True), ("discard_end",)):
+            p2 = ia.find_overlaps(Fragment("s", a, b, 1))
+            m2 = ia.find_overlaps(Fragment("s", a, b, -1))
+            p2.to_scaffold()
+            m2.to_scaffold()
+            if not (c18.apply_op(p2, op) and c18.apply_op(m2, op)) or not p2.rows or not m2.rows:
+                continue
+            try:
+                want2 = Scaffold("x", p2.to_scaffold().rows).reverse()
+                got2 = m2.to_scaffold()
+            except Exception as e:  # noqa: BLE001
+                ctx.violation(f"to_scaffold-after-edit-raises:{type(e).__name__}", case + [list(op)], repr(e))
+                continue
+            if fm.rows_of(got2) != fm.rows_of(want2):
+                ctx.violation("minus-bait-ne-reverse/after-edit", case + [list(op)], f"{got2.rows!r} expected {want2.rows!r}")
 
     def run_shard(self, shard, ctx):
         kind = shard[0]
@@ -329,7 +346,7 @@ class C14(Check):
             fi = c03.CHECK.make_index(w, eol, buf)
             self.one_stream(fi, dict(c03.RECS), w, eol, buf, ll, [tuple(r) for r in rows], ctx)
         elif kind == "lookup":
-            _, spec, a, b = case
+            _, spec, a, b = case[:4]
             spec = [tuple(r) for r in spec]
             ia = IndexedAssembly("t", scaffolds=[c18.build(spec)])
             self.one_lookup(spec, ia, a, b, ctx)
@@ -340,3 +357,4 @@ CHECK = C14()
 CHECK.rule += ' Histories on one object: reverse, append_scaffold (with / without gap) or add a row, reverse again.'
 CHECK.rule += ' Every 1- and 2-byte string over all 256 byte values, and every byte value at the start / middle / end of a longer string.'
 CHECK.rule += ' Fragment-gap-fragment scaffolds with every gap length 0..9 at line lengths 3 and 4; reverse fragments of every length 1..300 at buffers 32, 33, 64, 100, 250; the forward stream is also compared with the construction.'
+CHECK.rule += ' Lookups: to_scaffold() asked again after the result was cut to the bait or lost a row.'
